@@ -2,11 +2,18 @@
 //!
 //! case := `<B> <maxCk> <ttl> <op,op,...>`
 //!           B ∈ F (file backend, private temp dir) | M (memory backend)
+//!             | O (file backend, driven through the twin `StatefulOperator`: checkpoint / restore are the operator's own
+//!               methods, every other call goes through `state_mut()` / `state()`, `E` through `process()`)
 //!           ttl ∈ N (enable_ttl = false) | <ms> (enable_ttl = true, default_ttl = ms)
 //!           op ∈ P<k>.<v> put | T<k>.<v>.<ttl> put_with_ttl | U<k>.<v> update | D<k> delete | X clear
 //!              | G cleanup_expired | C checkpoint | R<i> restore(id returned by the i-th checkpoint of the
 //!              case; an id never returned if there is none) | A<ms> advance the injected clock
 //!              | K checkpoint under crash analysis (last op; file backend, maxCk ≥ 1)
+//!              | Z checkpoint interrupted by a REAL I/O error (file backend only): `<path>/<next id>/state.json` is
+//!                occupied by a directory, so `File::create` fails and `checkpoint` returns Err after its first steps;
+//!                the obstacle is removed afterwards (the empty `<next id>/` directory the call leaves behind stays).
+//!                Unlike `K` this observes the real code's own step order: whatever it did before the failing step.
+//!              | E<k>.<v> an event processed by the operator whose process function puts v under k (F / M: plain put)
 //!           keys k ∈ 0..2, values v ∈ 0..9 are indices into fixed tables of names / `Value`s.
 //! obs  := step;step;…   step := res/gets/keys/len/metas/files[/crash]
 //!           res   := ok | ok:<id> | err:<kind>          id printed `<ms>.<seq>` (`<ms>` before the fix)
@@ -17,7 +24,8 @@
 //!                    consecutive equal results collapsed:  ok=<view>~I | <kind>=u|c~I|B
 //! The clock is the `#[cfg(rre_verif)]` thread-local override of streaming::state (starts at 0).
 use rre_harness::*;
-use rust_rule_engine::streaming::state::{verif_clock, StateBackend, StateConfig, StateStore};
+use rust_rule_engine::streaming::event::StreamEvent;
+use rust_rule_engine::streaming::state::{verif_clock, StateBackend, StateConfig, StateResult, StateStore, StatefulOperator};
 use rust_rule_engine::types::Value;
 use std::collections::{BTreeMap, HashMap};
 use std::fs;
@@ -63,6 +71,8 @@ enum Op {
     Restore(usize),
     Advance(u64),
     Crash,
+    FailCk,
+    Event(usize, usize),
 }
 
 fn parse_op(s: &str) -> Option<Op> {
@@ -89,6 +99,8 @@ fn parse_op(s: &str) -> Option<Op> {
         ("G", 0) => Op::Cleanup,
         ("C", 0) => Op::Checkpoint,
         ("K", 0) => Op::Crash,
+        ("Z", 0) => Op::FailCk,
+        ("E", 2) => Op::Event(k(0)?, v(1)?),
         ("R", 1) => Op::Restore(nums[0] as usize),
         ("A", 1) => Op::Advance(nums[0]),
         _ => return None,
@@ -105,12 +117,16 @@ fn show_op(o: &Op) -> String {
         Op::Cleanup => "G".into(),
         Op::Checkpoint => "C".into(),
         Op::Crash => "K".into(),
+        Op::FailCk => "Z".into(),
+        Op::Event(k, v) => format!("E{}.{}", k, v),
         Op::Restore(i) => format!("R{}", i),
         Op::Advance(d) => format!("A{}", d),
     }
 }
 
 struct Case {
+    /// the file backend driven through `StatefulOperator` (implies `file`)
+    oper: bool,
     file: bool,
     max_ck: usize,
     ttl: Option<u64>,
@@ -122,9 +138,10 @@ fn parse_case(case: &str) -> Option<Case> {
     if t.len() != 4 {
         return None;
     }
-    let file = match t[0] {
-        "F" => true,
-        "M" => false,
+    let (file, oper) = match t[0] {
+        "F" => (true, false),
+        "O" => (true, true),
+        "M" => (false, false),
         _ => return None,
     };
     let max_ck = t[1].parse().ok()?;
@@ -134,13 +151,17 @@ fn parse_case(case: &str) -> Option<Case> {
     } else {
         t[3].split(',').map(parse_op).collect::<Option<Vec<_>>>()?
     };
-    Some(Case { file, max_ck, ttl, ops })
+    // the injected I/O error needs a file to fail on
+    if !file && ops.iter().any(|o| matches!(o, Op::FailCk)) {
+        return None;
+    }
+    Some(Case { oper, file, max_ck, ttl, ops })
 }
 
 fn show_case(c: &Case) -> String {
     format!(
         "{} {} {} {}",
-        if c.file { "F" } else { "M" },
+        if c.oper { "O" } else if c.file { "F" } else { "M" },
         c.max_ck,
         c.ttl.map(|t| t.to_string()).unwrap_or_else(|| "N".into()),
         if c.ops.is_empty() { "-".to_string() } else { c.ops.iter().map(show_op).collect::<Vec<_>>().join(",") }
@@ -171,6 +192,8 @@ fn err_kind(e: &rust_rule_engine::RuleEngineError) -> &'static str {
         "expired"
     } else if m.contains("State key") {
         "missing"
+    } else if m.contains("Failed to create checkpoint file") {
+        "ckfile"
     } else if m.contains("Cannot restore from memory") {
         "memory"
     } else if m.contains("not found") {
@@ -400,6 +423,63 @@ fn crash_probe(before: &Tree, after: &Tree, raw_id: &str, full_view: &BTreeMap<u
     out.join(",")
 }
 
+type ProcessFn = fn(&mut StateStore, &StreamEvent) -> StateResult<Option<Value>>;
+
+/// the operator's process function: `put(event.data["k"], event.data["v"])`
+fn process_put(st: &mut StateStore, ev: &StreamEvent) -> StateResult<Option<Value>> {
+    let k = match ev.data.get("k") {
+        Some(Value::String(k)) => k.clone(),
+        _ => return Ok(None),
+    };
+    let v = ev.data.get("v").cloned().unwrap_or(Value::Null);
+    st.put(k, v.clone())?;
+    Ok(Some(v))
+}
+
+/// the system under test: a `StateStore`, or the `StatefulOperator` that owns one
+enum Sut {
+    Store(StateStore),
+    Oper(StatefulOperator<ProcessFn>),
+}
+
+impl Sut {
+    fn st(&self) -> &StateStore {
+        match self {
+            Sut::Store(s) => s,
+            Sut::Oper(o) => o.state(),
+        }
+    }
+    fn st_mut(&mut self) -> &mut StateStore {
+        match self {
+            Sut::Store(s) => s,
+            Sut::Oper(o) => o.state_mut(),
+        }
+    }
+    fn checkpoint(&mut self, name: String) -> StateResult<String> {
+        match self {
+            Sut::Store(s) => s.checkpoint(name),
+            Sut::Oper(o) => o.checkpoint(name),
+        }
+    }
+    fn restore(&mut self, id: &str) -> StateResult<()> {
+        match self {
+            Sut::Store(s) => s.restore(id),
+            Sut::Oper(o) => o.restore(id),
+        }
+    }
+    fn event(&mut self, k: &str, v: Value) -> StateResult<()> {
+        match self {
+            Sut::Store(s) => s.put(k, v),
+            Sut::Oper(o) => {
+                let mut data = HashMap::new();
+                data.insert("k".to_string(), Value::String(k.to_string()));
+                data.insert("v".to_string(), v);
+                o.process(&StreamEvent::new("E", data, "c20")).map(|_| ())
+            }
+        }
+    }
+}
+
 fn exec(case: &str) -> String {
     let Some(c) = parse_case(case) else { return "bad-case".into() };
     let tab = values();
@@ -409,13 +489,16 @@ fn exec(case: &str) -> String {
     let mut now: u64 = 0;
     verif_clock::set_ms(Some(now));
     let backend = if c.file { StateBackend::File { path: root.clone() } } else { StateBackend::Memory };
-    let mut s = StateStore::with_config(StateConfig {
+    let store = StateStore::with_config(StateConfig {
         backend,
         max_checkpoints: c.max_ck,
         enable_ttl: c.ttl.is_some(),
         default_ttl: Duration::from_millis(c.ttl.unwrap_or(3_600_000)),
         ..Default::default()
     });
+    let mut s = if c.oper { Sut::Oper(StatefulOperator::new(store, process_put as ProcessFn)) } else { Sut::Store(store) };
+    // number of `checkpoint` calls made on the store so far (= its `checkpoint_seq`), failed ones included
+    let mut ck_calls: u64 = 0;
     let rootp: Option<&Path> = if c.file { Some(root.as_path()) } else { None };
     let mut ids: Vec<String> = Vec::new();
     let mut steps: Vec<String> = Vec::new();
@@ -426,14 +509,34 @@ fn exec(case: &str) -> String {
     for op in &c.ops {
         let mut crash = None;
         let res = match op {
-            Op::Put(k, v) => unit(s.put(KEYS[*k], tab[*v].clone())),
-            Op::PutTtl(k, v, t) => unit(s.put_with_ttl(KEYS[*k], tab[*v].clone(), Duration::from_millis(*t))),
-            Op::Update(k, v) => unit(s.update(KEYS[*k], tab[*v].clone())),
-            Op::Delete(k) => unit(s.delete(KEYS[*k])),
-            Op::Clear => unit(s.clear()),
+            Op::Put(k, v) => unit(s.st_mut().put(KEYS[*k], tab[*v].clone())),
+            Op::PutTtl(k, v, t) => unit(s.st_mut().put_with_ttl(KEYS[*k], tab[*v].clone(), Duration::from_millis(*t))),
+            Op::Update(k, v) => unit(s.st_mut().update(KEYS[*k], tab[*v].clone())),
+            Op::Delete(k) => unit(s.st_mut().delete(KEYS[*k])),
+            Op::Clear => unit(s.st_mut().clear()),
             Op::Cleanup => {
-                s.cleanup_expired();
+                s.st_mut().cleanup_expired();
                 "ok".into()
+            }
+            Op::Event(k, v) => unit(s.event(KEYS[*k], tab[*v].clone())),
+            Op::FailCk => {
+                // occupy the data file's path of the id the next checkpoint will use with a directory
+                let dir = root.join(format!("checkpoint_{}_{:06}", now, ck_calls));
+                let obstacle = dir.join("state.json");
+                fs::create_dir_all(&obstacle).unwrap();
+                ck_calls += 1;
+                let r = s.checkpoint(format!("cp{}", ids.len()));
+                let _ = fs::remove_dir(&obstacle);
+                match r {
+                    // the injection missed (another id scheme): an ordinary checkpoint — reported as such
+                    Ok(id) => {
+                        let _ = fs::remove_dir(&dir);
+                        let r = format!("ok:{}", canon_id(&id));
+                        ids.push(id);
+                        r
+                    }
+                    Err(e) => format!("err:{}", err_kind(&e)),
+                }
             }
             Op::Advance(d) => {
                 now += d;
@@ -446,7 +549,8 @@ fn exec(case: &str) -> String {
             }
             Op::Checkpoint | Op::Crash => {
                 let before = if c.file { read_tree(&root) } else { Tree::new() };
-                let view = store_view(&s, &tab);
+                let view = store_view(s.st(), &tab);
+                ck_calls += 1;
                 match s.checkpoint(format!("cp{}", ids.len())) {
                     Ok(id) => {
                         if matches!(op, Op::Crash) {
@@ -467,7 +571,7 @@ fn exec(case: &str) -> String {
                 }
             }
         };
-        let mut o = observe(&res, &s, rootp, &tab);
+        let mut o = observe(&res, s.st(), rootp, &tab);
         if let Some(cr) = crash {
             o.push('/');
             o.push_str(&cr);
@@ -535,7 +639,26 @@ fn gen(rng: &mut Rng, n: usize, tier: &str) -> Vec<String> {
     for s in &all {
         let mut ops = s.clone();
         ops.push(Op::Crash);
-        out.push(show_case(&Case { file: true, max_ck: 2, ttl: None, ops }));
+        out.push(show_case(&Case { oper: false, file: true, max_ck: 2, ttl: None, ops }));
+    }
+    // the twin entry points: every sequence of length <= 3 over {put via state_mut, put via process, delete, checkpoint,
+    // restore #0, restore #1} on a StatefulOperator (its checkpoint / restore must behave as the store's own, whatever
+    // path the edits in between took)
+    let alpha_o: Vec<Op> = vec![Op::Put(0, 1), Op::Event(0, 5), Op::Delete(0), Op::Checkpoint, Op::Restore(0), Op::Restore(1)];
+    let mut frontier: Vec<Vec<Op>> = vec![vec![]];
+    for _ in 0..3 {
+        let mut next = Vec::new();
+        for s in &frontier {
+            for o in &alpha_o {
+                let mut s2 = s.clone();
+                s2.push(o.clone());
+                next.push(s2);
+            }
+        }
+        for ops in &next {
+            out.push(show_case(&Case { oper: true, file: true, max_ck: 2, ttl: None, ops: ops.clone() }));
+        }
+        frontier = next;
     }
     // random part: length <= 10, both backends, retention bounds 0..3 and 10, with / without default TTL
     for _ in 0..n {
@@ -543,11 +666,22 @@ fn gen(rng: &mut Rng, n: usize, tier: &str) -> Vec<String> {
         let max_ck = *rng.pick(&[0usize, 1, 2, 2, 3, 3, 10, 10]);
         let ttl = if rng.chance(1, 4) { Some(*rng.pick(&[0u64, 1, 3, 10])) } else { None };
         let with_crash = file && max_ck >= 1 && rng.chance(1, 3);
+        // a quarter of the file-backend histories go through the twin StatefulOperator
+        let oper = file && rng.chance(1, 4);
         let len = rng.range(1, if with_crash { 9 } else { 10 }) as usize;
         let mut ops = Vec::new();
         let mut n_ck = 0;
         for _ in 0..len {
-            let o = random_op(rng, n_ck);
+            let mut o = random_op(rng, n_ck);
+            // one checkpoint in ten (file backend) is interrupted by an I/O error; a third of the puts are events
+            if file && matches!(o, Op::Checkpoint) && rng.chance(1, 10) {
+                o = Op::FailCk;
+            }
+            if let Op::Put(k, v) = o {
+                if rng.chance(1, 3) {
+                    o = Op::Event(k, v);
+                }
+            }
             if matches!(o, Op::Checkpoint) {
                 n_ck += 1;
             }
@@ -556,7 +690,83 @@ fn gen(rng: &mut Rng, n: usize, tier: &str) -> Vec<String> {
         if with_crash {
             ops.push(Op::Crash);
         }
-        out.push(show_case(&Case { file, max_ck, ttl, ops }));
+        out.push(show_case(&Case { oper, file, max_ck, ttl, ops }));
+    }
+    // interrupted-checkpoint family: a history that fills (or nearly fills, or overfills) the retention bound, then a
+    // checkpoint that fails with an I/O error, then every earlier checkpoint is restored (still listed ones must
+    // reproduce their state, the history and the files must be what they were), then life goes on
+    for _ in 0..n / 8 {
+        let max_ck = *rng.pick(&[1usize, 1, 2, 2, 3, 10]);
+        let oper = rng.chance(1, 4);
+        let n_before = match rng.below(6) {
+            0 => max_ck.min(3).saturating_sub(1),
+            1 => (max_ck + 1).min(4),
+            _ => max_ck.min(3),
+        };
+        let mut ops = Vec::new();
+        for i in 0..n_before {
+            ops.push(Op::Put(rng.below(3) as usize, rng.below(10) as usize));
+            if rng.chance(1, 3) {
+                ops.push(Op::Advance(rng.range(0, 2)));
+            }
+            ops.push(Op::Checkpoint);
+            if i + 1 == n_before && rng.chance(1, 2) {
+                ops.push(Op::Put(rng.below(3) as usize, rng.below(10) as usize));
+            }
+        }
+        ops.push(Op::FailCk);
+        if rng.chance(1, 4) {
+            ops.push(Op::FailCk);
+        }
+        let mut order: Vec<usize> = (0..n_before).collect();
+        rng.shuffle(&mut order);
+        for i in order {
+            ops.push(Op::Restore(i));
+        }
+        match rng.below(3) {
+            0 => {
+                ops.push(Op::Checkpoint);
+                ops.push(Op::Restore(n_before));
+            }
+            1 => ops.push(Op::Crash),
+            _ => {}
+        }
+        out.push(show_case(&Case { oper, file: true, max_ck, ttl: None, ops }));
+    }
+    // operator family: checkpoint through the operator, then change the state WITHOUT the operator noticing (edits
+    // through state_mut(), expiry by the clock, a restore of an older checkpoint) or through process(), then restore
+    // the latest / an older checkpoint through the operator
+    for _ in 0..n / 8 {
+        let max_ck = *rng.pick(&[2usize, 3, 10]);
+        let ttl = if rng.chance(1, 5) { Some(*rng.pick(&[3u64, 10])) } else { None };
+        let mut ops = Vec::new();
+        let mut n_ck = 0usize;
+        for _ in 0..rng.range(1, 2) {
+            for _ in 0..rng.range(0, 2) {
+                let (k, v) = (rng.below(3) as usize, rng.below(10) as usize);
+                ops.push(match rng.below(3) {
+                    0 => Op::Event(k, v),
+                    1 => Op::PutTtl(k, v, rng.range(1, 4)),
+                    _ => Op::Put(k, v),
+                });
+            }
+            ops.push(Op::Checkpoint);
+            n_ck += 1;
+            for _ in 0..rng.range(0, 2) {
+                let (k, v) = (rng.below(3) as usize, rng.below(10) as usize);
+                ops.push(match rng.below(8) {
+                    0 => Op::Event(k, v),
+                    1 | 2 => Op::Put(k, v),
+                    3 => Op::Update(k, v),
+                    4 => Op::Delete(k),
+                    5 => Op::Clear,
+                    6 => Op::Advance(rng.range(1, 6)),
+                    _ => Op::Restore(rng.below(n_ck as u64) as usize),
+                });
+            }
+            ops.push(Op::Restore(if rng.chance(3, 4) { n_ck - 1 } else { rng.below(n_ck as u64) as usize }));
+        }
+        out.push(show_case(&Case { oper: true, file: true, max_ck, ttl, ops }));
     }
     // expiry family: keys with a TTL that are written, updated, and observed around their expiry instant
     // (created_at + ttl, NOT refreshed by update), then checkpointed and restored: a snapshot must hold exactly
@@ -592,7 +802,7 @@ fn gen(rng: &mut Rng, n: usize, tier: &str) -> Vec<String> {
             ops.push(Op::Checkpoint);
             ops.push(Op::Restore(1));
         }
-        out.push(show_case(&Case { file, max_ck, ttl, ops }));
+        out.push(show_case(&Case { oper: file && rng.chance(1, 5), file, max_ck, ttl, ops }));
     }
     out
 }
@@ -601,10 +811,13 @@ fn shrink(case: &str) -> Vec<String> {
     let Some(c) = parse_case(case) else { return vec![] };
     let mut out = Vec::new();
     for ops in shrink_list(&c.ops) {
-        out.push(show_case(&Case { file: c.file, max_ck: c.max_ck, ttl: c.ttl, ops }));
+        out.push(show_case(&Case { oper: c.oper, file: c.file, max_ck: c.max_ck, ttl: c.ttl, ops }));
     }
     if c.ttl.is_some() {
-        out.push(show_case(&Case { file: c.file, max_ck: c.max_ck, ttl: None, ops: c.ops.clone() }));
+        out.push(show_case(&Case { oper: c.oper, file: c.file, max_ck: c.max_ck, ttl: None, ops: c.ops.clone() }));
+    }
+    if c.oper {
+        out.push(show_case(&Case { oper: false, file: c.file, max_ck: c.max_ck, ttl: c.ttl, ops: c.ops.clone() }));
     }
     for (i, o) in c.ops.iter().enumerate() {
         let smaller = match o {
@@ -612,12 +825,14 @@ fn shrink(case: &str) -> Vec<String> {
             Op::PutTtl(k, v, t) if *t > 0 => Some(Op::PutTtl(*k, *v, t / 2)),
             Op::Put(k, v) if *v > 0 => Some(Op::Put(*k, 0)),
             Op::Crash => Some(Op::Checkpoint),
+            Op::FailCk => Some(Op::Checkpoint),
+            Op::Event(k, v) => Some(Op::Put(*k, *v)),
             _ => None,
         };
         if let Some(s) = smaller {
             let mut ops = c.ops.clone();
             ops[i] = s;
-            out.push(show_case(&Case { file: c.file, max_ck: c.max_ck, ttl: c.ttl, ops }));
+            out.push(show_case(&Case { oper: c.oper, file: c.file, max_ck: c.max_ck, ttl: c.ttl, ops }));
         }
     }
     out
